@@ -23,7 +23,8 @@ def key_for(layer: int, block: int) -> int:
 
 
 def header_bytes(spec: dict) -> bytes:
-    info = b"<<< Oracle VM VirtualBox Disk Image >>>\n".ljust(64, b"\x00")
+    # the free-form text in front of the signature names the writer (VirtualBox under its three owners, qemu-img, others)
+    info = spec.get("banner", "<<< Oracle VM VirtualBox Disk Image >>>\n").encode("latin-1")[:64].ljust(64, b"\x00")
     nalloc = len(spec["alloc"])
     uu = [bytes([0x10 + i]) * 16 for i in range(4)]
     hdr = struct.pack(
